@@ -163,6 +163,23 @@ static void mk_t_links(const char *path)
     MK(cgio_close_file(cg), "close");
 }
 
+/* links whose text reaches the sizes of the buffers that receive it: file part up to CGIO_MAX_FILE_LENGTH (1024),
+   path part up to CGIO_MAX_LINK_LENGTH (4096), text up to 5121 */
+static void mk_t_biglinks(const char *path)
+{
+    int cg; double root, id;
+    static char f900[901], f1024[1025], p4000[4001], p4096[4097];
+    if (open_w(path, CGIO_FILE_ADF, &cg, &root)) return;
+    memset(f900, 'f', 900); memset(f1024, 'g', 1024);
+    memset(p4000, 'p', 4000); p4000[0] = '/'; memset(p4096, 'q', 4096); p4096[0] = '/';
+    mknode(cg, root, "T", "LabelT", "MT", 0, NULL, NULL);
+    MK(cgio_create_link(cg, root, "LA", f900, p4000, &id), "link LA");
+    MK(cgio_create_link(cg, root, "LB", f1024, p4096, &id), "link LB");
+    MK(cgio_create_link(cg, root, "LC", "", p4096, &id), "link LC");
+    MK(cgio_create_link(cg, root, "LD", f1024, "/T", &id), "link LD");
+    MK(cgio_close_file(cg), "close");
+}
+
 static void mk_t_multi(const char *path)
 {
     int cg, i, v[12], r[12]; double root, id = 0;
@@ -353,6 +370,7 @@ static int do_mkcorpus(const char *dir)
     mk_t_many(pjoin(dir, "t_many.adf"));     out("made t_many.adf");
     mk_t_links(pjoin(dir, "t_links.adf"));   out("made t_links.adf");
     mk_t_multi(pjoin(dir, "t_multi.adf"));   out("made t_multi.adf");
+    mk_t_biglinks(pjoin(dir, "t_biglinks.adf")); out("made t_biglinks.adf");
     mk_t_bigc1(pjoin(dir, "t_bigc1.adf"));   out("made t_bigc1.adf");
     mk_t_legacy(pjoin(dir, "t_legacy.adf")); out("made t_legacy.adf");
     mk_m_struct(pjoin(dir, "m_struct.adf"), CG_FILE_ADF, "Base", "Zone1"); out("made m_struct.adf");
